@@ -777,6 +777,15 @@ class FnTranslator:
                 return self.wrap(pre, P(self.pack(env, r[0])))
         raise RsError("Result-typed tail expression outside the subset: %s" % e[0])
 
+    def log_only_iflet_err(self, s, var):
+        """statement `if let Err(..) = var { logging macros only }` (no else)"""
+        if not (s[0] == "expr" and s[1][0] == "iflet" and s[1][4] is None): return False
+        _, pat, scrut, body, _ = s[1]
+        if scrut != ("path", [var]) or pat[0] != "pctor" or pat[1] != ["Err"]: return False
+        if body[0] != "block" or body[2] is not None: return False
+        logs = LOG_MACROS + tuple(getattr(self.u, "log_macros", ()))
+        return all(it[0] == "expr" and it[1][0] == "macro" and it[1][1] in logs for it in body[1])
+
     def err_tag(self, e, env, pre):
         """Lean String term standing for an error value"""
         if e[0] == "unit": return '"()"'
@@ -784,6 +793,11 @@ class FnTranslator:
         if e[0] == "call" and e[1][0] == "path" and e[1][1][-1] == "policy_error":
             term, ty = self.expr(e[2][0], env, pre, ("str",))
             self.dropped.append("message of policy_error(..)")
+            return term
+        if e[0] == "call" and e[1][0] == "path" and e[1][1][-1] == "temporary_policy_error" and len(e[2]) == 2:
+            # (b0507) policy/error.rs: same tag, kind TemporaryPolicy instead of Policy (as for temporary_policy_err!)
+            term, ty = self.expr(e[2][0], env, pre, ("str",))
+            self.dropped.append("message and the `temporary` kind of temporary_policy_error(..)")
             return term
         if e[0] == "call" and e[1][0] == "path" and e[1][1][-1] in self.u.error_ctors and len(e[2]) == 1:
             # declared error constructor carrying a list of indices: tag = "<prefix> " ++ toString list
@@ -969,6 +983,12 @@ class FnTranslator:
                 return self.stmts(rest, tail, env2, fin)
             if pat[0] == "pvar" and ("let:" + pat[1]) in self.u.externals:
                 return self.let_external(pat[1], e, line, rest, tail, env, fin)
+            if pat[0] == "pvar" and ty is None and e[0] in ("call", "mcall") and self.is_result and tail == ("path", [pat[1]]) \
+                    and rest and all(self.log_only_iflet_err(s, pat[1]) for s in rest):
+                # (b0507) `let res = f(..); if let Err(ref e) = res { <logging only> } res`: the Result of the call is
+                # passed on unchanged; the logging block is dropped like every logging macro
+                self.dropped.append("`if let Err(..) = %s { logging only }` after line %d" % (pat[1], line))
+                return self.stmts([], e, env, fin)
             if e[0] == "macro" and e[1] == "scoped_debug_return" and pat[0] == "pvar" \
                     and "scoped_debug_return" not in getattr(self.u, "log_macros", ()):
                 # util/debug_utils.rs: a guard that `debug!`-prints its arguments when it is dropped while its flag is
